@@ -2,24 +2,30 @@
 
 Tie to the code (model: coq/theories/PopRead.v, lemmas: PopReadProofs.v, theorems: coq/props/C12.v):
   stream `hist`   real InteractiveContexts built from a generated *program*: two probe components create 1-5 columns of
-                  dtypes bool/int64/float64/str (the second one requires the first one's columns, so that during the
-                  initial creation its initializer runs while its own columns do not exist yet); root views are
-                  obtained in `setup` through builder.population.get_view (column subsets incl. full views, with /
-                  without `tracked`, a column nobody creates, a repeated column; queries from the grammar below or
-                  none); then a history of sub-view creations (any depth; invalid requests too), successful and
-                  malformed updates (incl. untracking), births, time steps and reads.  Reads happen (a) inside the
-                  second component's initializer during the initial creation (view columns that do not exist yet),
-                  (b) inside it during births (reindexed table: NaN cells, bool -> object, int64 -> float64) and
-                  (c) between the other operations.  Every read: request = empty / all / subset / permutation /
-                  repeated labels / a label that does not exist; extra query or none.
+                  dtypes bool/int64/float64/str (names incl. `tracked_by`, `untracked_n`; the second component requires
+                  the first one's columns, so that during the initial creation its initializer runs while its own
+                  columns do not exist yet); root views are obtained in `setup` through builder.population.get_view
+                  (column subsets incl. full views, with / without `tracked`, a column nobody creates, a repeated
+                  column; queries from the grammar below, none, or only a comment); then a history of sub-view
+                  creations (any depth; invalid requests too), successful and malformed updates (incl. untracking),
+                  births, time steps, finalize, report and reads.  Reads happen (a) inside the second component's
+                  initializer during the initial creation (view columns that do not exist yet), (b) inside it during
+                  births (reindexed table: NaN cells, bool -> object, int64 -> float64), (c) from outside in the states
+                  population_creation / collect_metrics / simulation_end / report and (d) inside listeners of
+                  time_step__prepare, time_step, time_step__cleanup, collect_metrics and simulation_end.  Every read:
+                  request = empty / all / subset / permutation / repeated labels / a label that does not exist; extra
+                  query or none.
                   Observation: outcome class, returned labels in order, column list (as a set for full views),
                   cells.  The Coq model is given the table as get_population(untracked=True) shows it at the start
                   of a segment (a segment ends at a birth), folds the accepted updates itself and predicts every
                   sub-view outcome and every read.
-Query grammar (rendered to text with and/&, or/|, not/~, redundant parentheses, both quote styles; the model gets the
-syntax tree): atom := bare bool column | column OP constant (== != < <= > >=; bool and str columns: == != only);
-expr := atom | expr and expr | expr or expr | not expr.  Mentions of `tracked` (== True, == False, bare, negated) and
-top-level `or` are frequent on purpose (F-P, fixed by 394c1d50).
+Query grammar (the model gets the syntax tree, the implementation the text): atom := bare bool column | column OP
+constant | column OP column | column in [constants]; expr := atom | expr and expr | expr or expr | not expr.  Rendering
+varies and/&, or/|, not/~, `not in`, `== [list]`, reversed (`3 < age`) and chained (`1 < age <= 3`) comparisons,
+backticked names, redundant parentheses, both quote styles, and trailing `# comments` (incl. comments that contain
+`tracked == True`).  Mentions of `tracked` (== True, == False, bare, negated), top-level `or` (F-P, fixed by 394c1d50)
+and the word "tracked" in places that are NOT the column - longer column names, string constants, comments (F-W, fixed
+by 8679fa8f) - are frequent on purpose.
 Direct oracle: a plain-python reference filter over the harness' own copy of the table (snapshot + the updates the
 harness issued), with the property's rule for the default `tracked` filter; plus the copy probe (the returned frame is
 mutated in place, then the state table is re-read and compared).
@@ -31,14 +37,13 @@ from core import Result, Stream, cbool, clist, cnat, cpair, cz, czlist
 
 PROPERTY = "C12"
 RULE = ("hist: generated programs (module doc) on real InteractiveContexts: 0-10 simulants + births, 1-5 columns, 1-4 root "
-        "views, 0-14 operations + reads inside initializers; distinct = distinct program; trivial = no read was executed")
+        "views, 0-20 operations + reads inside initializers and event listeners; distinct = distinct program; "
+        "trivial = no read was executed")
 ASSUMPTIONS = [
     "pandas' DataFrame.query evaluates the generated query strings as the syntax tree they were rendered from "
-    "(comparisons and boolean connectives on bool/int64/float64/str columns; NaN compares false except under !=); "
-    "validated on every explored case, since the model evaluates the tree and the implementation the text",
-    "column names and string constants in queries do not contain the substring 'tracked' (the code's test "
-    "`'tracked' not in query` is a substring test on the text; the model's is syntactic) and queries contain no "
-    "comment character '#'",
+    "(comparisons, membership and boolean connectives on bool/int64/float64/str columns; NaN compares false except "
+    "under != / not in); validated on every explored case, since the model evaluates the tree and the implementation "
+    "the text",
     "float cells are multiples of 1/4 (exact in binary64); a float cell F z stands for z/4",
     "the state table shown by get_population(untracked=True) at the start of a segment is the model's input table",
 ]
@@ -48,6 +53,7 @@ TRUSTED = [
     "manager or of a view is read",
     "C12: copy semantics (mutating the returned frame does not change the state table) is TESTED by the copy probe on "
     "every successful read, not proved (a Gallina value cannot alias)",
+    "C12: sysconfig.get_paths is memoised in the harness process (loguru recomputes it for every context; pure function)",
 ]
 LEVEL_NOTE = ("copy semantics of the returned frame is checked by the correspondence driver (mutate, re-read), not proved; "
               "queries are restricted to the grammar of the module doc")
@@ -56,24 +62,31 @@ CLAIM = {
     "text": "Machine-checked theorems (all tables, views, sub-view chains of any depth, requests, extra queries, write "
             "histories): a read returns exactly the requested labels that satisfy the view's and the extra filter, in "
             "request order with repeats, with exactly the view's columns and the current cells; the default tracked "
-            "filter applies exactly when the view has columns, lacks `tracked` and the inherited query does not mention "
-            "it; missing view columns and unknown labels are errors.  The model is tied to /repo/src by running real "
-            "PopulationViews of real contexts and the model on the same generated histories (Coq decides agreement).",
+            "filter applies exactly when the view has columns, lacks `tracked` and the inherited query does not refer to "
+            "the tracked column; missing view columns and unknown labels are errors.  The model is tied to /repo/src by "
+            "running real PopulationViews of real contexts (reads in initializers, event listeners and from outside in "
+            "six lifecycle states) and the model on the same generated histories (Coq decides agreement).",
     "note": "Copy semantics is tested (mutate the returned frame, re-read the table), not proved. Queries are limited to "
-            "a comparison/and/or/not grammar; pandas.query is trusted to parse the rendered text to the generated tree. "
-            "The substring test for 'tracked' is modelled syntactically (names containing 'tracked' are excluded).",
+            "a comparison/membership/and/or/not grammar; pandas.query is trusted to parse the rendered text to the "
+            "generated tree.",
 }
 
-POOL = ["age", "bmi", "sex", "alive", "wt", "kids"]
-NAME2ID = {"tracked": 0, "age": 1, "bmi": 2, "sex": 3, "alive": 4, "wt": 5, "kids": 6, "zz": 7, "yy": 8}
+POOL = ["age", "bmi", "sex", "alive", "wt", "kids", "tracked_by", "untracked_n"]
+NAME2ID = {"tracked": 0, "age": 1, "bmi": 2, "sex": 3, "alive": 4, "wt": 5, "kids": 6, "zz": 7, "yy": 8,
+           "tracked_by": 9, "untracked_n": 10}
 DTS = ["bool", "int", "float", "str"]
-STRS = ["x", "y", "z", "w", "q"]          # "q" never occurs in a table
+STRS = ["x", "y", "z", "w", "q", "tracked", "a#b", "it's"]      # "q" and "it's" never occur in a table
+CELL_STRS = ["x", "y", "z", "w", "x", "y", "tracked", "a#b"]
 OPS = ["==", "!=", "<", "<=", ">", ">="]
+FLIP = {"==": "==", "!=": "!=", "<": ">", "<=": ">=", ">": "<", ">=": "<="}
 COQ_OP = {"==": "CEq", "!=": "CNe", "<": "CLt", "<=": "CLe", ">": "CGt", ">=": "CGe"}
+COMMENTS = ["x", "tracked == True", "and tracked == False", "it's", "or tracked", "'tracked'", "", "# tracked"]
+PHASES = ["time_step__prepare", "time_step", "time_step__cleanup", "collect_metrics"]
 
 
 # ----------------------------------------------------------------------------------------------------------------
 # query syntax trees: generation, rendering, reference evaluation, Coq literal
+#   ["col", n] | ["cmp", n, op, const] | ["cmpc", n, op, n2] | ["in", n, [consts]] | ["and", a, b] | ["or", a, b] | ["not", a]
 # ----------------------------------------------------------------------------------------------------------------
 def gen_const(rng, dt):
     if dt == "bool":
@@ -106,13 +119,19 @@ def gen_atom(rng, avail, p_tracked):
         return ["cmp", "tracked", "==", ["b", True]]
     n = rng.choice(names)
     dt = avail[n]
+    k = rng.random()
     if dt == "bool":
-        k = rng.random()
         if k < 0.3 and n in avail["__bare__"]:
             # (a bool column that is being re-initialised during a birth is an object column with NaN: pandas refuses
             #  it as a bare mask - only columns that are complete whenever a read happens are used bare)
             return ["col", n]
         return ["cmp", n, rng.choice(["==", "!="]), gen_const(rng, dt)]
+    if k < 0.14:                                               # membership
+        return ["in", n, [gen_const(rng, dt) for _ in range(rng.choice([1, 2, 2, 3]))]]
+    if k < 0.26:                                               # column against column of the same kind
+        same = [m for m in names if (avail[m] == "str") == (dt == "str") and avail[m] != "bool"]
+        m = rng.choice(same)
+        return ["cmpc", n, rng.choice(["==", "!="] if dt == "str" else OPS), m]
     if dt == "str":
         return ["cmp", n, rng.choice(["==", "!="]), gen_const(rng, dt)]
     return ["cmp", n, rng.choice(OPS), gen_const(rng, dt)]
@@ -123,7 +142,12 @@ def gen_tree(rng, avail, p_tracked, depth):
     if depth <= 0 or r < 0.35:
         return gen_atom(rng, avail, p_tracked)
     if r < 0.60:
-        return ["and", gen_tree(rng, avail, p_tracked, depth - 1), gen_tree(rng, avail, p_tracked, depth - 1)]
+        a = gen_tree(rng, avail, p_tracked, depth - 1)
+        if a[0] == "cmp" and a[2] in ("<", "<=", ">", ">=") and a[3][0] != "b" and rng.random() < 0.3:
+            # a range on one column (rendered as a chained comparison now and then)
+            return ["and", a, ["cmp", a[1], rng.choice(["<", "<="] if a[2] in (">", ">=") else [">", ">="]),
+                               gen_const(rng, avail.get(a[1], "int"))]]
+        return ["and", a, gen_tree(rng, avail, p_tracked, depth - 1)]
     if r < 0.88:
         return ["or", gen_tree(rng, avail, p_tracked, depth - 1), gen_tree(rng, avail, p_tracked, depth - 1)]
     return ["not", gen_tree(rng, avail, p_tracked, depth - 1)]
@@ -148,7 +172,13 @@ def render_const(rng, k):
         return str(int(v))
     if kind == "f":
         return repr(v / 4.0)
+    if "'" in v:
+        return '"%s"' % v
     return ("'%s'" if rng.random() < 0.5 else '"%s"') % v
+
+
+def render_name(rng, n):
+    return f"`{n}`" if rng.random() < 0.08 else n
 
 
 def render(rng, q, parent=0, sym=None):
@@ -157,32 +187,61 @@ def render(rng, q, parent=0, sym=None):
     if sym is None:
         sym = rng.random() < 0.25            # use & | ~ in this query
     tag = q[0]
+    sp = " " if rng.random() < 0.85 else ""
     if tag == "col":
-        s, prec = q[1], 4
+        s, prec = render_name(rng, q[1]), 4
     elif tag == "cmp":
-        sp = " " if rng.random() < 0.85 else ""
-        s, prec = f"{q[1]}{sp}{q[2]}{sp}{render_const(rng, q[3])}", 4
+        if rng.random() < 0.12:
+            s = f"{render_const(rng, q[3])}{sp}{FLIP[q[2]]}{sp}{render_name(rng, q[1])}"
+        else:
+            s = f"{render_name(rng, q[1])}{sp}{q[2]}{sp}{render_const(rng, q[3])}"
+        prec = 4
+    elif tag == "cmpc":
+        s, prec = f"{render_name(rng, q[1])}{sp}{q[2]}{sp}{render_name(rng, q[3])}", 4
+    elif tag == "in":
+        lst = "[" + ", ".join(render_const(rng, k) for k in q[2]) + "]"
+        s, prec = f"{render_name(rng, q[1])} {'==' if rng.random() < 0.2 else 'in'} {lst}", 4
     elif tag == "and":
-        s, prec = render(rng, q[1], 2, sym) + (" & " if sym else " and ") + render(rng, q[2], 2, sym), 2
+        a, b = q[1], q[2]
+        if (a[0] == "cmp" and b[0] == "cmp" and a[1] == b[1] and a[2] in ("<", "<=", ">", ">=")
+                and b[2] in ("<", "<=", ">", ">=") and rng.random() < 0.5):
+            s = f"{render_const(rng, a[3])} {FLIP[a[2]]} {render_name(rng, a[1])} {b[2]} {render_const(rng, b[3])}"
+            prec = 4 if not sym else 0
+        else:
+            s, prec = render(rng, a, 2, sym) + (" & " if sym else " and ") + render(rng, b, 2, sym), 2
     elif tag == "or":
         s, prec = render(rng, q[1], 1, sym) + (" | " if sym else " or ") + render(rng, q[2], 1, sym), 1
     else:
         inner = q[1]
-        if sym and rng.random() < 0.7:
+        r = rng.random()
+        if inner[0] == "in" and r < 0.6:
+            lst = "[" + ", ".join(render_const(rng, k) for k in inner[2]) + "]"
+            s, prec = f"{render_name(rng, inner[1])} {'!=' if r < 0.12 else 'not in'} {lst}", 4
+        elif sym and r < 0.7:
             s = ("~" + inner[1]) if inner[0] == "col" else ("~(" + render(rng, inner, 0, sym) + ")")
             prec = 4
         else:
             s, prec = "not " + render(rng, inner, 3, sym), 3
-    if prec < parent or (parent > 0 and tag == "cmp" and sym) or rng.random() < 0.12:
+    if prec < parent or (parent > 0 and tag in ("cmp", "cmpc", "in", "not") and sym) or rng.random() < 0.12:
         s = "(" + s + ")"
+    return s
+
+
+def render_query(rng, q, comment=True):
+    """Query text for the tree q ("" for None), now and then with a trailing comment."""
+    s = render(rng, q) if q is not None else ""
+    if s and comment and rng.random() < 0.12:
+        s += rng.choice(["  # ", " #", "# "]) + rng.choice(COMMENTS)
     return s
 
 
 def tree_cols(q):
     if q is None:
         return []
-    if q[0] in ("col", "cmp"):
+    if q[0] in ("col", "cmp", "in"):
         return [q[1]]
+    if q[0] == "cmpc":
+        return [q[1], q[3]]
     if q[0] == "not":
         return tree_cols(q[1])
     return tree_cols(q[1]) + tree_cols(q[2])
@@ -209,6 +268,10 @@ def c_tree(q):
         return f"(QCol {cz(NAME2ID[q[1]])})"
     if t == "cmp":
         return f"(QCmp {cz(NAME2ID[q[1]])} {COQ_OP[q[2]]} {c_cell(q[3])})"
+    if t == "cmpc":
+        return f"(QCmpC {cz(NAME2ID[q[1]])} {COQ_OP[q[2]]} {cz(NAME2ID[q[3]])})"
+    if t == "in":
+        return f"(QIn {cz(NAME2ID[q[1]])} {clist(c_cell(k) for k in q[2])})"
     if t == "not":
         return f"(QNot {c_tree(q[1])})"
     return f"({'QAnd' if t == 'and' else 'QOr'} {c_tree(q[1])} {c_tree(q[2])})"
@@ -232,8 +295,18 @@ def ref_cmp(op, a, b):
     return {"==": a == b, "!=": a != b, "<": a < b, "<=": a <= b, ">": a > b, ">=": a >= b}[op]
 
 
+def ref_cells(op, c, k):
+    """NaN/None: every comparison false except !=; strings: (in)equality only."""
+    x, y = ref_num(c), ref_num(k)
+    if x is not None and y is not None:
+        return ref_cmp(op, x, y)
+    if c is not None and k is not None and c[0] == "s" and k[0] == "s":
+        return ref_cmp(op, c[1], k[1]) if op in ("==", "!=") else False
+    return op == "!="
+
+
 def ref_eval(q, row):
-    """row: {name: cell}.  NaN/None: every comparison false except !=."""
+    """row: {name: cell}."""
     if q is None:
         return True
     t = q[0]
@@ -241,13 +314,11 @@ def ref_eval(q, row):
         c = row[q[1]]
         return bool(c is not None and c[0] == "b" and c[1])
     if t == "cmp":
-        c, k = row[q[1]], tuple(q[3])
-        x, y = ref_num(c), ref_num(k)
-        if x is not None and y is not None:
-            return ref_cmp(q[2], x, y)
-        if c is not None and c[0] == "s" and k[0] == "s":
-            return ref_cmp(q[2], c[1], k[1]) if q[2] in ("==", "!=") else False
-        return q[2] == "!="
+        return ref_cells(q[2], row[q[1]], tuple(q[3]))
+    if t == "cmpc":
+        return ref_cells(q[2], row[q[1]], row[q[3]])
+    if t == "in":
+        return any(ref_cells("==", row[q[1]], tuple(k)) for k in q[2])
     if t == "and":
         return ref_eval(q[1], row) and ref_eval(q[2], row)
     if t == "or":
@@ -268,7 +339,7 @@ TRACKED_TRUE = ["cmp", "tracked", "==", ["b", True]]
 
 def effective_filter(cols, inherited):
     """The property's rule: a view that has columns but not `tracked` shows tracked simulants only, unless the
-    (inherited) query speaks about `tracked` itself."""
+    (inherited) query speaks about the `tracked` column itself."""
     if cols and "tracked" not in cols and "tracked" not in tree_cols(inherited):
         return conj(inherited, TRACKED_TRUE)
     return inherited
@@ -284,7 +355,7 @@ def gen_value(rng, dt):
         return rng.randint(-2, 6)
     if dt == "float":
         return rng.randint(-6, 14)        # quarters
-    return rng.choice(STRS[:4])
+    return rng.choice(CELL_STRS)
 
 
 def gen_cols(rng, universe, allow_full=True):
@@ -325,6 +396,8 @@ def gen_index(rng, n):
 def gen_hist(rng: random.Random):
     k = rng.choice([1, 2, 2, 3, 3, 4, 5])
     names = rng.sample(POOL, k)
+    if rng.random() < 0.25 and not any("tracked" in n for n in names):
+        names[rng.randrange(k)] = rng.choice(["tracked_by", "untracked_n"])
     dts = {n: rng.choice(DTS) for n in names}
     cut = rng.randint(0, k)
     g1, g2 = names[:cut], names[cut:]
@@ -338,7 +411,9 @@ def gen_hist(rng: random.Random):
     for _ in range(rng.randint(1, 4)):
         cols = gen_cols(rng, universe)
         q = gen_query(rng, avail)
-        text = render(rng, q) if q is not None else ""
+        text = render_query(rng, q)
+        if q is None and cols and "tracked" not in cols and rng.random() < 0.25:
+            text = rng.choice(["# ", "  # ", "#"]) + rng.choice(COMMENTS)      # a query that is only a comment
         as_str = len(cols) == 1 and rng.random() < 0.3
         roots.append({"cols": cols, "as_str": as_str, "q": q, "text": text})
         views.append(cols)
@@ -374,7 +449,7 @@ def gen_hist(rng: random.Random):
         kview = rng.choice(alive) if rng.random() < 0.97 else rng.randrange(len(views))
         kind, idx = gen_index(rng, state["n"])
         q = gen_query(rng, avail) if rng.random() < 0.45 else None
-        return ["read", kview, idx, q, render(rng, q) if q is not None else "", kind]
+        return ["read", kview, idx, q, render_query(rng, q), kind]
 
     def gen_write():
         n = state["n"]
@@ -394,33 +469,53 @@ def gen_hist(rng: random.Random):
             return ["bad", "dtype", rng.choice(names)]
         return ["bad", "newcol"]
 
-    def gen_early(table_cols, nmax):
+    def gen_inner(table_cols, writes=False):
+        """operations run inside an initializer / an event listener"""
         ops = []
         for _ in range(rng.choice([0, 1, 1, 2, 3])):
-            ops.append(gen_sub(table_cols) if rng.random() < 0.3 else gen_read())
+            r = rng.random()
+            if r < 0.25:
+                ops.append(gen_sub(table_cols))
+            elif r < 0.45 and writes and state["n"]:
+                ops.append(gen_write())
+            else:
+                ops.append(gen_read())
         return ops
 
-    early0 = gen_early(["tracked"] + g1, n0)
+    early0 = gen_inner(["tracked"] + g1)
     ops = []
     if n0 and rng.random() < 0.5:       # untracked simulants from the start of the history
         labels = rng.sample(range(n0), rng.randint(1, max(1, n0 // 2)))
         ops.append(["write", ["tracked"], labels, [[False] * len(labels)]])
-    for _ in range(rng.choice([0, 1, 2, 3, 4, 5, 6, 8, 10, 14])):
+    steps = 0
+    for _ in range(rng.choice([0, 1, 2, 3, 4, 6, 8, 10, 14, 20])):
         r = rng.random()
-        if r < 0.15:
+        if r < 0.13:
             ops.append(gen_sub(universe))
-        elif r < 0.34:
+        elif r < 0.32:
             ops.append(gen_write() if state["n"] else gen_read())
-        elif r < 0.39:
+        elif r < 0.36:
             ops.append(gen_bad())
-        elif r < 0.45:
+        elif r < 0.41:
             g = rng.choice([0, 1, 1, 2, 3])
             state["n"] += g
-            ops.append(["grow", g, gen_early(universe, state["n"])])
-        elif r < 0.48:
-            ops.append(["step"])
+            ops.append(["grow", g, gen_inner(universe)])
+        elif r < 0.50:
+            ph = rng.choice(PHASES + [None])
+            ops.append(["step", ph, gen_inner(universe, writes=True) if ph else []])
+            steps += 1
         else:
             ops.append(gen_read())
+    if rng.random() < 0.15:              # the end of the simulation: reads in simulation_end and report
+        if not steps:
+            ops.append(["step", None, []])
+        ops.append(["finalize", gen_inner(universe)])
+        for _ in range(rng.randint(0, 3)):
+            ops.append(gen_sub(universe) if rng.random() < 0.2 else gen_read())
+        if rng.random() < 0.5:
+            ops.append(["report"])
+            for _ in range(rng.randint(1, 3)):
+                ops.append(gen_read())
     nmax = state["n"]
     vals = {n: [gen_value(rng, dts[n]) for _ in range(nmax)] for n in names}
     return {"g1": [[n, dts[n]] for n in g1], "g2": [[n, dts[n]] for n in g2], "n0": n0, "vals": vals, "roots": roots,
@@ -432,6 +527,27 @@ def gen_hist(rng: random.Random):
 # ----------------------------------------------------------------------------------------------------------------
 CONFIG = {"time": {"start": {"year": 2005, "month": 7, "day": 1}, "end": {"year": 2005, "month": 8, "day": 1},
                    "step_size": 1}}
+
+
+def _memoise_sysconfig():
+    """loguru's exception formatter calls sysconfig.get_paths() for every sink a context adds (8 ms per context);
+    the result is constant in a process."""
+    import functools
+    import sysconfig
+    if not getattr(sysconfig.get_paths, "_c12_cached", False):
+        orig = sysconfig.get_paths
+
+        @functools.lru_cache(maxsize=None)
+        def cached(scheme=None, vars=None, expand=True):
+            return orig() if scheme is None else orig(scheme, vars, expand)
+
+        def get_paths(scheme=None, vars=None, expand=True):
+            if vars is not None:
+                return orig(scheme, vars, expand) if scheme is not None else orig(vars=vars, expand=expand)
+            return dict(cached(scheme, None, expand))
+
+        get_paths._c12_cached = True
+        sysconfig.get_paths = get_paths
 
 
 def canon(v):
@@ -464,10 +580,12 @@ def dtype_tag(dt):
 def canon_frame(df):
     """-> (column names, [(label, [cells])]) read positionally (repeated labels / columns are fine)."""
     cols = [str(c) for c in df.columns]
-    rows = []
-    for i in range(len(df)):
-        rows.append((int(df.index[i]), [canon(df.iat[i, j]) for j in range(len(cols))]))
-    return cols, rows
+    if not len(df):
+        return cols, []
+    if not cols:
+        return cols, [(int(l), []) for l in df.index]
+    values = df.to_numpy(dtype=object).tolist()
+    return cols, [(int(l), [canon(v) for v in row]) for l, row in zip(df.index.tolist(), values)]
 
 
 def series_for(name, dt, values, index):
@@ -498,18 +616,24 @@ class Driver:
         self.dts = {n: d for n, d in case["g1"] + case["g2"]}
         self.dts["tracked"] = "bool"
         self.sim = None
+        self.state = lambda: "?"
         self.views = []           # PopulationView or None, same numbering as the model
         self.spec = []            # per view: (columns or [] for full, effective filter tree) for the oracle
         self.segments = []        # [(coq table, [coq ops])]
         self.table = None         # oracle copy: {"cols": [...], "labels": [...], "rows": {label: {col: cell}}}
+        self.raw = None           # the frame get_population(True) returned when the oracle copy was last synchronised
         self.fail = []            # oracle failures
         self.tags = []
         self.reads = 0
         self.trace = []
+        self.pending = {}         # event name -> operations to run inside its listener
+        self.pending_early = []
+        self.closed = False       # simulation_end reached: no more updates
 
     # -- oracle table ----------------------------------------------------------------------------------------
     def snapshot(self):
         df = self.sim.get_population(True)
+        self.raw = df
         cols, rows = canon_frame(df)
         return {"cols": cols, "dtypes": [dtype_tag(d) for d in df.dtypes], "labels": [l for l, _ in rows],
                 "rows": {l: dict(zip(cols, cells)) for l, cells in rows}}
@@ -530,6 +654,7 @@ class Driver:
         self.segments[-1][1].append(s)
 
     def table_check(self, where):
+        """full comparison of the state table with the oracle copy (snapshot + accepted updates)"""
         now = self.snapshot()
         exp = self.table
         if now["labels"] != exp["labels"] or sorted(now["cols"]) != sorted(exp["cols"]) or \
@@ -537,6 +662,12 @@ class Driver:
             self.fail.append(f"{where}: the state table differs from the snapshot + the accepted updates")
             return False
         return True
+
+    def unchanged_check(self, where):
+        """cheap: the state table equals the frame seen at the last synchronisation (copy probe)"""
+        now = self.sim.get_population(True)
+        if not (list(now.columns) == list(self.raw.columns) and now.equals(self.raw)):
+            self.fail.append(f"{where}: the state table changed")
 
     # -- operations -------------------------------------------------------------------------------------------
     def do_sub(self, op):
@@ -576,9 +707,9 @@ class Driver:
         vcols, vfilt = self.spec[k]
         t = self.table
         err, res = None, None
+        index = pd.Index([int(i) for i in idx], dtype="int64")
         try:
-            res = view.get(pd.Index([int(i) for i in idx], dtype="int64"), text) if text or self.reads % 2 else \
-                view.get(pd.Index([int(i) for i in idx], dtype="int64"))
+            res = view.get(index, text) if text or self.reads % 2 else view.get(index)
         except Exception as e:
             err = e
         code = code_of(err)
@@ -620,32 +751,30 @@ class Driver:
         # ---- copy probe: mutate the returned frame in place, the state table must not change ----
         if res is not None:
             self.mutate(res)
-            self.table_check(f"{where}: after mutating the returned frame")
+            self.unchanged_check(f"{where}: after mutating the returned frame")
         frame = "(mk_frame %s %s)" % (czlist(NAME2ID[c] for c in obs_cols),
                                       clist(cpair(cz(l), clist(c_cell(c) for c in cells)) for l, cells in obs_rows))
         self.emit(f"(ORead {cnat(k)} {czlist(idx)} {c_tree(q)} {cz(code)} {frame})")
-        mt = "tracked" in tree_cols(vfilt)
         if code == 0 and idx:
             self.tags.append(f"nonempty_request_returned:{'none' if not obs_rows else 'all' if len(obs_rows) == len(idx) else 'some'}")
             if any(t["rows"][l]["tracked"] != ("b", True) for l, _ in obs_rows if l in t["rows"]):
                 self.tags.append("read:returned_untracked")
             if any(t["rows"][l]["tracked"] != ("b", True) for l in idx if l in t["rows"]) and vcols and "tracked" not in vcols:
                 self.tags.append("read:plain_view_asked_for_untracked")
-        self.tags += [f"read:code{code}", f"idx:{kind}", f"view:{'full' if not vcols else 'has_tracked' if 'tracked' in vcols else 'plain'}",
-                      f"rows_returned:{min(len(obs_rows), 5)}"]
+        self.tags += [f"read:code{code}", f"idx:{kind}", f"read@{self.state()}",
+                      f"view:{'full' if not vcols else 'has_tracked' if 'tracked' in vcols else 'plain'}"]
         if q is not None:
             self.tags.append("read:extra_query")
+        if "#" in text.replace("a#b", ""):
+            self.tags.append("read:extra_query_with_comment")
         self.trace.append(["read", k, idx, text, code, obs_cols, [[l, cells] for l, cells in obs_rows][:12]])
 
     def mutate(self, res):
-        import pandas as pd
         try:
             for j in range(res.shape[1]):
-                col = res.iloc[:, j]
                 if len(res):
                     first = res.iat[0, j]
-                    new = (not first) if isinstance(first, (bool,)) or str(col.dtype) == "bool" else \
-                        "mut" if isinstance(first, str) else 777
+                    new = (not first) if str(res.dtypes.iloc[j]) == "bool" else "mut" if isinstance(first, str) else 777
                     try:
                         res.iat[0, j] = new
                     except Exception:
@@ -668,6 +797,8 @@ class Driver:
     def do_write(self, op):
         import pandas as pd
         _, cols, labels, vals = op
+        if self.closed:
+            return
         t = self.table
         index = pd.Index([int(l) for l in labels], dtype="int64")
         data = {c: series_for(c, self.dts[c], vs, index) for c, vs in zip(cols, vals)}
@@ -682,12 +813,15 @@ class Driver:
                 t["rows"][l][c] = typed_cell(self.dts[c], v)
             self.emit("(OWrite (mk_wr %s %s))" % (cz(NAME2ID[c]), clist(
                 cpair(cz(l), c_cell(typed_cell(self.dts[c], v))) for l, v in zip(labels, vs))))
+        self.raw = self.sim.get_population(True)
         self.tags.append("write:untrack" if "tracked" in cols else "write")
         self.trace.append(["write", cols, labels, vals])
 
     def do_bad(self, op):
         import pandas as pd
         kind = op[1]
+        if self.closed:
+            return
         n = len(self.table["labels"])
         try:
             if kind == "label":
@@ -712,28 +846,55 @@ class Driver:
         # the table must be what it was (history part of the property: only accepted updates count)
         self.table_check(f"after a malformed update ({kind})")
 
-    def run_ops(self, ops, early=False):
+    def run_ops(self, ops, inner=False, writes=True):
         for op in ops:
             kind = op[0]
             if kind == "sub":
                 self.do_sub(op)
             elif kind == "read":
                 self.do_read(op)
-            elif early:
-                continue
             elif kind == "write":
-                self.do_write(op)
+                if writes:
+                    self.do_write(op)
             elif kind == "bad":
-                self.do_bad(op)
+                if writes:
+                    self.do_bad(op)
+            elif inner:
+                continue
             elif kind == "grow":
+                if self.closed:
+                    continue
                 self.table_check("before a birth")
                 self.pending_early = op[2]
                 self.creator(int(op[1]), {})
                 self.begin_segment("after_birth")
             elif kind == "step":
+                if self.closed:
+                    continue
+                if op[1]:
+                    self.pending[op[1]] = op[2]
                 self.sim.step()
-                self.tags.append("step")
+                self.tags.append(f"step:{op[1] or 'plain'}")
                 self.table_check("after a time step")
+            elif kind == "finalize":
+                if self.closed:
+                    continue
+                self.pending["simulation_end"] = op[1]
+                self.sim.finalize()
+                self.closed = True
+                self.tags.append("finalize")
+                self.table_check("after finalize")
+            elif kind == "report":
+                if not self.closed:
+                    continue
+                self.sim.report(print_results=False)
+                self.tags.append("report")
+                self.table_check("after report")
+
+    def on_event(self, name):
+        ops = self.pending.pop(name, None)
+        if ops:
+            self.run_ops(ops, inner=True, writes=(name != "simulation_end"))
 
 
 def run_hist(case):
@@ -741,6 +902,7 @@ def run_hist(case):
     from vivarium import Component
     from vivarium.interface.interactive import InteractiveContext
 
+    _memoise_sysconfig()
     boot.reset_contexts()
     d = Driver(case)
     g1, g2 = [n for n, _ in case["g1"]], [n for n, _ in case["g2"]]
@@ -754,6 +916,7 @@ def run_hist(case):
         def setup(self, builder):
             d.creator = builder.population.get_simulant_creator()
             d.writer = builder.population.get_view([])
+            d.state = builder.lifecycle.current_state()
             if g1:
                 self.v = builder.population.get_view(list(g1))
                 builder.population.initializes_simulants(self.on_init, creates_columns=list(g1))
@@ -772,13 +935,21 @@ def run_hist(case):
             if g2:
                 self.v = builder.population.get_view(list(g2))
             builder.population.initializes_simulants(self.on_init, creates_columns=list(g2), requires_columns=list(g1))
+            for ev in PHASES + ["simulation_end"]:
+                builder.event.register_listener(ev, self._listener(ev))
             self.first = True
+
+        def _listener(self, ev):
+            def listen(event):
+                d.on_event(ev)
+            listen.__name__ = f"c12_{ev}"
+            return listen
 
         def on_init(self, pop_data):
             ops = case["early0"] if self.first else d.pending_early
             if ops:
                 d.begin_segment("in_initializer_initial" if self.first else "in_initializer_birth")
-                d.run_ops(ops, early=True)
+                d.run_ops(ops, inner=True, writes=False)
             self.first = False
             if g2:
                 self.v.update(frame_for(g2, pop_data.index))
@@ -787,7 +958,6 @@ def run_hist(case):
     sim = InteractiveContext(components=[C12First(), C12Second()], configuration=cfg, setup=False, logging_verbosity=0)
     d.sim = sim
     boot.quiet_logging()
-    d.pending_early = []
     sim.setup()
     d.begin_segment("main")
     d.run_ops(case["ops"])
@@ -801,16 +971,20 @@ def run_hist(case):
                       ("+q_tracked" if "tracked" in tree_cols(r["q"]) else "+q" if r["q"] is not None else ""))
         if r["q"] is not None and r["q"][0] == "or":
             d.tags.append("root:top_level_or")
+        # the word "tracked" in the text although the query does not refer to the column (class F-W)
+        if "tracked" in r["text"] and "tracked" not in tree_cols(r["q"]):
+            d.tags.append("root:word_tracked_not_the_column" + ("" if r["cols"] and "tracked" not in r["cols"] else "(no default due)"))
+        if "#" in r["text"].replace("a#b", ""):
+            d.tags.append("root:comment_only" if r["q"] is None else "root:trailing_comment")
     ok = not d.fail
     return Result(ok=ok, msg="; ".join(d.fail[:3]), coq=coq, key=case if d.reads else None,
                   obs={"trace": d.trace[:40], "failures": d.fail[:5]}, tags=tuple(d.tags))
 
 
 # ----------------------------------------------------------------------------------------------------------------
-# corpus: hand-picked histories (the F-P witness, the interpretive corner cases)
+# corpus: hand-picked histories (the F-P and F-W witnesses, the interpretive corner cases)
 # ----------------------------------------------------------------------------------------------------------------
 def corpus():
-    T = ["cmp", "tracked", "==", ["b", True]]
     NT = ["cmp", "tracked", "==", ["b", False]]
     a_gt = ["cmp", "age", ">", ["i", 1]]
     a_lt = ["cmp", "age", "<", ["i", 0]]
@@ -831,7 +1005,12 @@ def corpus():
                [["sub", 2, ["age"], False], ["sub", 3, ["sex"], True], ["sub", 4, ["age"], False],
                 ["read", 4, [4, 3, 3, 0, 1], None, "", "repeat"], ["read", 5, allidx, ["cmp", "sex", "!=", ["s", "x"]], "sex != 'x'", "all"],
                 ["read", 6, allidx, None, "", "all"], ["grow", 2, [["read", 5, [5, 6, 0], None, "", "subset"], ["read", 3, [6, 5], None, "", "perm"]]],
-                ["read", 3, [6, 5, 0], None, "", "subset"], ["step"], ["read", 0, [0, 1, 2, 3, 4, 5, 6], None, "", "all"]]
+                ["read", 3, [6, 5, 0], None, "", "subset"], ["step", "time_step", [["read", 0, [0, 1, 2, 3, 4, 5, 6], None, "", "all"],
+                                                                                 ["write", ["tracked"], [1], [[False]]],
+                                                                                 ["read", 0, [0, 1, 2, 3, 4, 5, 6], None, "", "all"]]],
+                ["read", 0, [0, 1, 2, 3, 4, 5, 6], None, "", "all"],
+                ["finalize", [["read", 4, [6, 5, 4], None, "", "subset"]]], ["read", 5, [6, 5, 4, 1], None, "", "subset"],
+                ["report"], ["read", 3, [1, 0], None, "", "subset"]]
     cases.append(c)
     # a query that speaks about tracked replaces the default; `tracked == False` selects the untracked
     c = dict(base)
@@ -859,12 +1038,40 @@ def corpus():
                  ["write", ["tracked"], [0], [[False]]], ["read", 0, [0, 1, 2, 0], None, "", "repeat"],
                  ["sub", 1, ["bmi"], False], ["read", 2, [0, 1, 2], None, "", "all"]]}
     cases.append(c)
+    # F-W (fixed by 8679fa8f): the word "tracked" somewhere in the query text is not a reference to the tracked column:
+    # longer column names, string constants, comments; a trailing comment must not swallow the default filter
+    tb = ["cmp", "tracked_by", ">=", ["i", 0]]
+    c = {"g1": [["age", "int"], ["tracked_by", "int"]], "g2": [["sex", "str"], ["untracked_n", "float"]], "n0": 4,
+         "vals": {"age": [1, 2, 3, 4, 5], "tracked_by": [0, 1, 2, 3, 4], "sex": ["tracked", "x", "a#b", "tracked", "y"],
+                  "untracked_n": [4, 8, 0, -4, 4]}}
+    texts = [(tb, "tracked_by >= 0"),
+             (["cmp", "sex", "!=", ["s", "tracked"]], "sex != 'tracked'"),
+             (["cmp", "age", ">=", ["i", 0]], "age >= 0 # x"),
+             (["cmp", "age", ">=", ["i", 0]], "age >= 0  # and tracked == True"),
+             (None, "# only a comment"),
+             (None, "  # tracked == True"),
+             (["or", ["cmp", "sex", "==", ["s", "tracked"]], ["cmp", "untracked_n", ">", ["i", 1]]], 'sex == "tracked" | untracked_n > 1 # it\'s'),
+             (["and", ["cmp", "sex", "!=", ["s", "a#b"]], ["in", "sex", [["s", "tracked"], ["s", "x"], ["s", "it's"]]]],
+              "sex != 'a#b' and sex in ['tracked', \"x\", \"it's\"]"),
+             (["cmpc", "tracked_by", "<", "age"], "`tracked_by` < age"),
+             (["and", tb, ["col", "tracked"]], "tracked_by >= 0 and tracked # the column itself: no default")]
+    c["roots"] = [{"cols": ["age"], "as_str": False, "q": q, "text": t} for q, t in texts] + \
+                 [{"cols": ["age", "tracked"], "as_str": False, "q": texts[2][0], "text": texts[2][1]},
+                  {"cols": [], "as_str": False, "q": texts[6][0], "text": texts[6][1]}]
+    c["early0"] = [["read", 0, [0, 1, 2, 3], None, "", "all"]]
+    c["ops"] = [["write", ["tracked"], [1, 3], [[False, False]]]] + \
+               [["read", k, [3, 2, 1, 0], None, "", "perm"] for k in range(12)] + \
+               [["sub", 10, ["age"], False], ["sub", 11, ["untracked_n"], True], ["read", 12, [0, 1, 2, 3], None, "", "all"],
+                ["read", 13, [0, 1, 2, 3], ["cmp", "sex", "==", ["s", "tracked"]], "sex == 'tracked'  # tracked == False", "all"],
+                ["grow", 1, [["read", 0, [4, 3], None, "", "subset"], ["read", 1, [4, 0], None, "", "subset"]]],
+                ["read", 13, [4, 3, 2, 1, 0], None, "", "perm"]]
+    cases.append(c)
     return cases
 
 
 def streams(tier):
     return [
         Stream(name="hist", imports="From Viv Require Import Common PopRead.", check="check_hist", gen=gen_hist,
-               run=run_hist, n_quick=400, n_thorough=4000, corpus=corpus,
-               doc="histories of view creations, updates, births and reads on real PopulationViews"),
+               run=run_hist, n_quick=300, n_thorough=3000, corpus=corpus,
+               doc="histories of view creations, updates, births, steps and reads on real PopulationViews"),
     ]
